@@ -29,6 +29,7 @@ from forml import project
 from forml.io import dsl
 from forml.provider.feed.reader import alchemy
 
+from vf.core import caches
 from vf.core.hyp import Campaign, st
 from vf.dslx import exec10
 from vf.sym import hygiene
@@ -195,9 +196,7 @@ def database() -> exec10.Database:
 
 
 def _clear_caches():
-    dsl.Source.__getitem__.cache_clear()
-    dsl.Source.Schema.__getitem__.cache_clear()
-    alchemy.Reader._parse_statement.cache_clear()  # pylint: disable=protected-access
+    caches.clear(dsl.Source, dsl.Source.Schema, alchemy.Reader)  # wherever forml memoises: not named one by one
 
 
 def _ids(rows) -> list:
